@@ -10,6 +10,12 @@ package gcsemu
 //@ typeinv nonnil GcsEmu.store
 //@ typeinv nonnil GcsEmu.locks
 //@ typeinv nonnil GcsEmu.log
+// net/http: a request handed to a server handler (or produced by http.ReadRequest) has a non-nil URL, Header and
+// Body ("For server requests, the Request Body is always non-nil"); the emulator's own stores to these fields are
+// checked (typeinv obligations).
+//@ typeinv nonnil http.Request.Body
+//@ typeinv nonnil http.Request.URL
+//@ typeinv nonnil http.Request.Header
 // (typeinv purefunc GcsEmu.log is declared by the lead in zz_verif_contracts.go.)
 
 //@ func lockName
@@ -49,6 +55,7 @@ package gcsemu
 //@ func (g *GcsEmu) handleGcsNewBucket
 //@   property C07 C20
 //@   requires w != nil && r != nil && r.Body != nil
+//@   requires !isnil(ctx)
 //@   modifies *, ghost(jsonBodies)
 //@   ensures jsonBodies == old(jsonBodies) + 1
 
@@ -67,12 +74,12 @@ package gcsemu
 //@   ensures result1 != nil ==> result0 == nil
 //@   ensures result1 == nil ==> len(srcs) <= 32 && meta != nil
 //@   loop 1 invariant len(metas) == len(srcs)
-//@   loop 1 invariant forall k :: 0 <= k <= idx1 ==> metas[k] != nil && fresh(metas[k])
+//@   loop 1 invariant forall k :: 0 <= k <= idx1 ==> metas[k] != nil
 //@   loop 1 invariant forall k :: 0 <= k <= idx1 ==> condsHold(metas[k], srcs[k].conds)
 //@   loop 1 invariant frameOld(fields(meta))
 //@   loop 1 invariant frameOld(elems(srcs))
 //@   loop 2 invariant len(metas) == len(srcs)
-//@   loop 2 invariant forall k :: 0 <= k < len(metas) ==> metas[k] != nil && fresh(metas[k])
+//@   loop 2 invariant forall k :: 0 <= k < len(metas) ==> metas[k] != nil
 //@   loop 2 invariant forall k :: 0 <= k < len(metas) ==> condsHold(metas[k], srcs[k].conds)
 
 // handleGcsCompose (C15/C20): entry-point preconditions only (non-nil writer, request, body); the decoded
@@ -80,6 +87,7 @@ package gcsemu
 //@ func (g *GcsEmu) handleGcsCompose
 //@   property C15 C20 C07
 //@   requires w != nil && r != nil && r.Body != nil
+//@   requires !isnil(ctx)
 //@   modifies *, ghost(jsonBodies)
 //@   ensures jsonBodies == old(jsonBodies) + 1
 //@   loop 1 invariant len(srcs) == len(req.SourceObjects)
@@ -90,6 +98,7 @@ package gcsemu
 //@ func (g *GcsEmu) handleGcsCopy
 //@   property C15 C20 C07
 //@   requires w != nil
+//@   requires !isnil(ctx)
 //@   modifies *, ghost(jsonBodies)
 //@   ensures jsonBodies == old(jsonBodies) + 1
 //@   callback $1 invariant f1 + "/rewriteTo/b/" + (b2 + "/o/" + f2) == objectPaths
@@ -199,3 +208,38 @@ package gcsemu
 //@   modifies *
 //@   ensures result != nil && fresh(result)
 //@   ensures result.store != nil && result.locks != nil && result.log != nil
+
+// ---------------------------------------------------------------------------------------------
+// The closures returned by the HTTP wrappers are served by net/http: same entry-point preconditions as Handler
+// (what net/http guarantees for a served request); the wrapped handler h was checked non-nil when the wrapper
+// was built (requires of DrainRequestHandler / GzipRequestHandler).
+// ---------------------------------------------------------------------------------------------
+
+//@ func DrainRequestHandler$1
+//@   property C20
+//@   requires w != nil && r != nil && r.URL != nil && r.Header != nil && r.Body != nil
+//@   requires h != nil
+//@   modifies *
+
+//@ func GzipRequestHandler$1
+//@   property C20 C02
+//@   requires w != nil && r != nil && r.URL != nil && r.Header != nil && r.Body != nil
+//@   requires h != nil
+//@   modifies *
+
+// client.go (test-client helpers, not part of the served emulator): net/http's client hands a RoundTripper a
+// non-nil request with a non-nil URL (RoundTripper contract); http.DefaultTransport is never nil.
+//@ func NewTestClientWithHost$1
+//@   property C20
+//@   requires r != nil && r.URL != nil
+//@   requires !isnil(delegate)
+//@   modifies *
+
+//@ func (f tripperFunc) RoundTrip
+//@   property C20
+//@   requires f != nil
+//@   modifies *
+
+//@ func NewServer
+//@   property C20
+//@   modifies *
